@@ -16,6 +16,9 @@ def run(ctx):
         {"nodes": [{"k": "step", "val": 4}], "final_value": "decimal"},
         {"nodes": [{"k": "wait"}, {"k": "step"}], "final_value": "tuplekey"},
         {"nodes": [{"k": "step"}], "final_value": "object"},
+        # results whose size in characters, in UTF-8 bytes and in escaped ASCII differ
+        {"nodes": [{"k": "step"}], "final_large": "unicode"},
+        {"nodes": [{"k": "wait"}, {"k": "step"}], "final_large": "unicode"},
         {"nodes": [{"k": "step", "fail": -1, "max": 1, "errmsg": 404, "errtype": "ValueError"}]},
         {"nodes": [{"k": "child", "body": [{"k": "step", "fail": -1, "max": 1, "errmsg": "<set>"}]}]},
         {"nodes": [{"k": "step", "fail": -1, "max": 1, "errmsg": "<exc>", "errtype": "OtherError"}, {"k": "step"}]},
